@@ -78,8 +78,8 @@ func genEmuConfig(r *rand.Rand) procdrv.EmuConfig {
 	}
 	c.GnbName = string(nb)
 	c.SST = int32(1 + r.Intn(255))
-	c.SD = hexs(rbytes(r, 3))
-	c.GnbGTP = net.IP(rbytes(r, 4)).String()
+	c.SD = sdString(r)
+	c.GnbGTP = pick(r, net.IP(rbytes(r, 4)), ipv4Class(r)).String()
 	c.AmfIP, c.StgIP = "192.0.2."+fmt.Sprint(1+r.Intn(250)), "192.0.2."+fmt.Sprint(1+r.Intn(250))
 	c.AmfPort, c.StgPort = 1024+r.Intn(60000), 1024+r.Intn(60000)
 	c.DLIface, c.ULIface = "verif-none0", "verif-none1"
@@ -109,8 +109,8 @@ func genChoices(r *rand.Rand, nUE int) refamf.Choices {
 	ch.RegAcceptOpts = r.Intn(32)
 	ch.QosRulesLen = pick(r, 0, 1, 9, 127, 128, 255, 256, 1200, r.Intn(300))
 	ch.AcceptOptMask = r.Intn(16)
-	ch.UEIPBase = pick(r, net.IPv4(10, 45, 0, 1), net.IPv4(10, 0, 0, 0), net.IPv4(172, 16, 255, 200), net.IP(rbytes(r, 4)))
-	ch.UPF = pick(r, net.IPv4(192, 168, 61, 4), net.IPv4(0, 0, 0, 0), net.IPv4(255, 255, 255, 255), net.IP(rbytes(r, 4)))
+	ch.UEIPBase = pick(r, net.IPv4(10, 45, 0, 1), net.IPv4(10, 0, 0, 0), net.IPv4(172, 16, 255, 200), net.IP(rbytes(r, 4)), ipv4Class(r))
+	ch.UPF = pick(r, net.IPv4(192, 168, 61, 4), net.IPv4(0, 0, 0, 0), net.IPv4(255, 255, 255, 255), net.IP(rbytes(r, 4)), ipv4Class(r))
 	ch.TEIDBase = pick(r, uint32(0), 1, 1<<31, 1<<32-16, r.Uint32())
 	ch.WithAMBR = r.Intn(2) == 0
 	ch.BackupAMFName = r.Intn(3) == 0
